@@ -20,6 +20,7 @@ type universal struct {
 	done  map[string]bool
 	gen   func(s *State, chosen []string) string // programmatic body (engine-generated universals)
 	alloc string                                 // allocation frontier when the clause was assumed
+	more  func(chosen []string) []string         // further trigger terms an instance introduces (e.g. a permutation's image)
 }
 
 func (s *State) cloneUniv() []*universal {
@@ -76,6 +77,13 @@ func (s *State) instantiate(u *universal) {
 				t := u.gen(s, chosen)
 				s.noTrig = false
 				s.assume(t)
+				if u.more != nil && s.instDepth < 2 {
+					s.instDepth++
+					for _, nt := range u.more(chosen) {
+						s.trigger(u.sorts[0], nt)
+					}
+					s.instDepth--
+				}
 				return
 			}
 			env := u.env
